@@ -21,6 +21,7 @@
 #include <llvm/Transforms/IPO.h>
 #include <llvm/Transforms/Scalar.h>
 #include <llvm/Transforms/Utils.h>
+#include <algorithm>
 #include <map>
 #include <set>
 #include <string>
@@ -111,6 +112,8 @@ struct FnEmitter {
   void emitPhiCopies(const BasicBlock* from, const BasicBlock* to, const std::string& ind);
   void emitBranchTo(const BasicBlock* from, const BasicBlock* to, const std::string& ind);
   std::string gepExpr(const GEPOperator* G);
+  std::string typedGep(const GEPOperator* G);
+  std::string lvalue(const Value* P, Type* AT);
   void computePrivate();
   bool isPrivateAddr(const Value* P);
   enum Vis { INVISIBLE, VIS_READ, VIS_WRITE, VIS_CAS, VIS_BLOCKING, VIS_PAUSE };
